@@ -522,8 +522,10 @@ MUTANTS += [
          old="    except JSONPathError as err:\n        # Any other library error, like an unknown function name.\n        if args.debug:\n            raise\n        sys.stderr.write(f\"error: {err}\\n\")\n        sys.exit(1)\n", new=""),
     dict(id="c20-revert-eval-base-handler", props=["C20"], file=CLI,
          old="    except JSONPathError as err:\n        # Any other evaluation error, like exceeding the recursion limit.\n        if args.debug:\n            raise\n        sys.stderr.write(f\"error: {err}\\n\")\n        sys.exit(1)\n", new=""),
-    dict(id="c20-revert-unicode-handler", props=["C20"], file=CLI,
-         old="    except UnicodeDecodeError as err:\n        if args.debug:\n            raise\n        sys.stderr.write(f\"target document decode error: {err}\\n\")\n        sys.exit(1)\n", new=""),
+    # (the UnicodeDecodeError handler alone is no longer a mutant: the ValueError handler added by F18 covers it;
+    #  see benign.py c20-unicode-handler-subsumed)
+    dict(id="c20-revert-unicode-and-value-handlers", props=["C20"], file=CLI,
+         old="    except UnicodeDecodeError as err:\n        if args.debug:\n            raise\n        sys.stderr.write(f\"target document decode error: {err}\\n\")\n        sys.exit(1)\n    except (ValueError, RecursionError) as err:\n", new="    except RecursionError as err:\n"),
     dict(id="c20-index-error-exit-zero", props=["C20"], file=CLI,
          old="        sys.stderr.write(f\"index error: {err}\\n\")\n        sys.exit(1)", new="        sys.stderr.write(f\"index error: {err}\\n\")\n        sys.exit(0)"),
     dict(id="c20-type-error-two-lines", props=["C20"], file=CLI,
@@ -736,4 +738,10 @@ MUTANTS += [
     dict(id="c13-revert-int-digit-limit-fix", props=["C13", "C20"], file=PARSE,
          old="        try:\n            return int(token.value)\n        except ValueError as err:\n            # Python refuses to convert decimal strings beyond\n            # `sys.get_int_max_str_digits()` digits.\n            raise JSONPathIndexError(\"index out of range\", token=token) from err\n",
          new="        return int(token.value)\n"),
+]
+
+MUTANTS += [
+    # revert of F18
+    dict(id="c20-revert-load-valueerror-handler", props=["C20"], file=S + "cli.py",
+         old="    except (ValueError, RecursionError) as err:\n", new="    except KeyError as err:\n"),
 ]
